@@ -75,7 +75,12 @@ pub fn build(variant: usize) -> GrafeoDB {
     for (i, (name, v)) in vals.iter().enumerate() {
         if ids.len() < 2 { break; }
         let (a, b) = (ids[i % ids.len()], ids[(i * 7 + 1) % ids.len()]);
-        let e = db.create_edge_with_props(a, b, if i % 2 == 0 { "T" } else { "" }, [(*name, v.clone())]);
+        // every third edge carries several properties (their order in the snapshot must not depend on the call)
+        let e = if i % 3 == 0 {
+            db.create_edge_with_props(a, b, if i % 2 == 0 { "T" } else { "" }, [(*name, v.clone()), ("w", Value::Int64(i as i64)), ("z", vals[(i + 5) % vals.len()].1.clone()), ("y", Value::String(format!("e{i}").into())), ("x", Value::Float64(-0.0))])
+        } else {
+            db.create_edge_with_props(a, b, if i % 2 == 0 { "T" } else { "" }, [(*name, v.clone())])
+        };
         if i % 5 == 4 { db.delete_edge(e); }
     }
     // sparse identifiers: delete some nodes, then add more
@@ -98,7 +103,9 @@ pub fn fidelity(o: &Opts) -> i32 {
         let b1 = db.export_snapshot().unwrap();
         let b2 = db.export_snapshot().unwrap();
         let mut res = vec![];
-        res.push(("export_deterministic", b1 == b2));
+        // several exports of the unchanged database: all byte-identical
+        let more: Vec<Vec<u8>> = (0..6).map(|_| db.export_snapshot().unwrap()).collect();
+        res.push(("export_deterministic", b1 == b2 && more.iter().all(|b| *b == b1)));
         res.push(("import", GrafeoDB::import_snapshot(&b1).map(|c| dump(&c) == src).unwrap_or(false)));
         res.push(("reexport_equal_dump", GrafeoDB::import_snapshot(&b1).ok().and_then(|c| c.export_snapshot().ok()).and_then(|b| GrafeoDB::import_snapshot(&b).ok()).map(|c| dump(&c) == src).unwrap_or(false)));
         res.push(("to_memory", db.to_memory().map(|c| dump(&c) == src).unwrap_or(false)));
